@@ -46,7 +46,7 @@ CONF = {
                 monitor_only=[("nestflush", 500, 5000)],
                 big=[("kinds3", 400, 4000), ("big", 40, 600)], enum=True),
     "C06": dict(prefixes=("C06.",), builds=("pure",),
-                model=[("ctx", 400, 4000), ("ctxsync", 300, 3000), ("ctxfaults", 300, 3000), ("nonasync", 300, 3000), ("kill", 400, 4000),
+                model=[("ctx", 400, 4000), ("ctxsync", 300, 3000), ("ctxfaults", 300, 3000), ("nonasync", 300, 3000), ("nonasyncfaults", 400, 4000), ("kill", 400, 4000),
                        ("override", 150, 1500)],
                 big=[("ctxsync", 300, 3000), ("nonasync", 200, 2000)]),
     "C07": dict(prefixes=("C07.",), builds=("pure",),
